@@ -21,7 +21,7 @@ ASSUMPTIONS = [
     "dyadic cost values are compared exactly, float-mode values with relative tolerance 1e-9",
 ]
 
-CFG = gen.Cfg(warm=4, facilities=True, float_mode=5, max_time=[40, 80], abs_p=2, abs_size=6, abs_max=12)
+CFG = gen.Cfg(warm=4, facilities=True, float_mode=5, max_time=[40, 80], abs_p=2, abs_size=6, abs_max=12, ids_flat=3)
 
 
 def strategy(tier):
